@@ -303,16 +303,26 @@ def build_library_operation(spec, world=None):
         return a
 
     as_np = spec.get("arr") == "np"
+
+    def par(v):
+        # a parameter may be handed over as a 0-d numpy array (np.asarray(x), np.squeeze(fit.x)):
+        # a mutable object of the caller's, which the library must leave alone
+        if spec.get("ptype") == "np0d":
+            a = np.array(v)
+            user.append(a)
+            return a
+        return v
+
     if t == "F.Creation":
         return Operation(FockOperationType.Creation), user
     if t == "F.Annihilation":
         return Operation(FockOperationType.Annihilation), user
     if t == "F.PhaseShift":
-        return Operation(FockOperationType.PhaseShift, phi=spec["phi"]), user
+        return Operation(FockOperationType.PhaseShift, phi=par(spec["phi"])), user
     if t == "F.Displace":
-        return Operation(FockOperationType.Displace, alpha=complex(spec["re"], spec["im"])), user
+        return Operation(FockOperationType.Displace, alpha=par(complex(spec["re"], spec["im"]))), user
     if t == "F.Squeeze":
-        return Operation(FockOperationType.Squeeze, zeta=complex(spec["re"], spec["im"])), user
+        return Operation(FockOperationType.Squeeze, zeta=par(complex(spec["re"], spec["im"]))), user
     if t == "F.Identity":
         return Operation(FockOperationType.Identity), user
     if t == "F.Custom":
@@ -338,13 +348,13 @@ def build_library_operation(spec, world=None):
         if g in ("I", "X", "Y", "Z", "H", "S", "T", "SX"):
             return Operation(getattr(PolarizationOperationType, g)), user
         if g in ("RX", "RY", "RZ"):
-            return Operation(getattr(PolarizationOperationType, g), theta=spec["theta"]), user
+            return Operation(getattr(PolarizationOperationType, g), theta=par(spec["theta"])), user
         if g == "U3":
             return (
                 Operation(
                     PolarizationOperationType.U3,
                     # the order in which the caller writes the keywords is a choice too
-                    **{k: spec[k] for k in spec.get("kw", ["phi", "theta", "omega"])},
+                    **{k: par(spec[k]) for k in spec.get("kw", ["phi", "theta", "omega"])},
                 ),
                 user,
             )
@@ -398,7 +408,7 @@ def build_library_operation(spec, world=None):
     if t == "X.CSWAP":
         return Operation(CompositeOperationType.CSwapPolarization), user
     if t == "X.BS":
-        return Operation(CompositeOperationType.NonPolarizingBeamSplitter, eta=spec["eta"]), user
+        return Operation(CompositeOperationType.NonPolarizingBeamSplitter, eta=par(spec["eta"])), user
     if t == "X.Expr":
         f = spec["form"]
         kinds = spec["kinds"]
